@@ -4,6 +4,7 @@
 cd "$(dirname "$0")/.."
 pid=$1
 n=$(echo $pid | tr 'C' 'c')
+git add -A; git commit -qm "evidence before integrating $pid" >/dev/null 2>&1
 git merge --no-edit -q -X ours w-$n || { echo "merge conflict"; git merge --abort; exit 1; }
 /venv/bin/python tools/mkfindings.py
 ./check --setup >/dev/null 2>&1
